@@ -53,6 +53,9 @@ pub struct Disc {
     /// ingest through the async (tokio) copy of the receive loop's function instead of the sync one
     #[serde(default)]
     pub use_async: bool,
+    /// peers' packets look like replies to a query (build_reply): address records travel in the additional section only
+    #[serde(default)]
+    pub reply_style: bool,
 }
 
 const SERVICES: [&str; 2] = ["_srv._tcp.local", "_my._udp.local"];
@@ -112,6 +115,7 @@ thread_local! {
     /// a peer turns its description into records once (as ServiceDiscovery::new does) and announces
     /// those same records every time; a goodbye is the same records with TTL 0
     static RECORDS: std::cell::RefCell<HashMap<String, Vec<ResourceRecord<'static>>>> = std::cell::RefCell::new(HashMap::new());
+    static REPLY_STYLE: std::cell::Cell<bool> = const { std::cell::Cell::new(false) };
 }
 
 fn announcement_with(info: InstanceInformation, owner: &str, ttl: u32, foreign_additionals: &[&str]) -> Result<Vec<u8>, Fail> {
@@ -135,6 +139,10 @@ fn announcement_with(info: InstanceInformation, owner: &str, ttl: u32, foreign_a
     for r in &records {
         if matches!(r.rdata, RData::A(_) | RData::AAAA(_)) {
             p.additional_records.push(r.clone());
+            if REPLY_STYLE.with(|x| x.get()) {
+                // as in a reply to a PTR / SRV query: the addresses are additional records only
+                continue;
+            }
         }
         p.answers.push(r.clone());
     }
@@ -154,6 +162,10 @@ fn announcement_with(info: InstanceInformation, owner: &str, ttl: u32, foreign_a
 
 fn check(d: &Disc, case: &mut Case) -> Result<(), Fail> {
     RECORDS.with(|r| r.borrow_mut().clear());
+    REPLY_STYLE.with(|x| x.set(d.reply_style));
+    if d.reply_style {
+        case.class("addresses-in-additional-section-only");
+    }
     let service = SERVICES[d.service as usize % 2];
     let foreign = FOREIGN[d.service as usize % 2];
     let service_name = Name::new(service).unwrap().into_owned();
@@ -397,7 +409,7 @@ fn strategy(_t: Tier) -> BoxedStrategy<Disc> {
                 .enumerate()
                 .map(|(i, (ips, ports, attrs))| Peer { name: names[(i + rot as usize) % names.len()].to_string(), ips, ports, attrs })
                 .collect();
-            Disc { service, peers, seq, channel, ttl, use_async }
+            Disc { service, peers, seq, channel, ttl, use_async, reply_style: rot >= 170 }
         })
         .boxed()
 }
@@ -432,7 +444,7 @@ fn check_escape(s: &String, case: &mut Case) -> Result<(), Fail> {
 pub fn def() -> CheckDef {
     CheckDef {
         id: "C15",
-        rule: "model-based: a watched service (_srv._tcp.local or _my._udp.local), a discoverer named 'self', 1..5 peers with distinct valid single-label names, 0..4 IPv4/IPv6 addresses, 0..4 ports and attribute lists (values absent / empty / non-empty), and sequences of 1..9 announcements: peers (repeated), the discoverer's own instance, PTR records owned by the service name, the peers' records under textually colliding foreign services (_srvx._tcp.local, x_srv._tcp.local, _srv._tcpx.local, _tcp.local) and under deeper names (a.<peer>.<service>), and peer announcements whose additional section also carries A/SRV/TXT records owned by names outside the service (a host name, another service's instance, the service name itself), goodbyes (TTL 0) after which the peer may advertise again, and combined packets (host record, other service, service PTR, two peers in one compressed message). One peer in thirteen has 18..39 addresses and 5..11 ports. Each announcement is assembled like ServiceDiscovery::announce (into_records, answers + address records as additionals), serialised with build_bytes_vec_compressed, parsed, ingested with the receive loop's add_response_to_resources — the sync one, or (35% of the cases) the async-tokio copy driven by a current-thread runtime — with and without an on_discovery channel, and read back exactly as get_known_services does. Oracle: every advertised peer is reported exactly once with exactly its name, address set, port set and attribute map; the number of reported instances equals the number of advertised strict-subdomain owners and each equals one owner's record set; nothing for the discoverer, the service name or foreign services; channel messages equal the instance just announced and none is delivered for records that must not be reported. Separately, unescape(escape(s)) == s for generated strings biased to '.' and '\\\\'. Non-trivial = >= 2 peers, a multi-member set, or noise present",
+        rule: "model-based: a watched service (_srv._tcp.local or _my._udp.local), a discoverer named 'self', 1..5 peers with distinct valid single-label names, 0..4 IPv4/IPv6 addresses, 0..4 ports and attribute lists (values absent / empty / non-empty), and sequences of 1..9 announcements: peers (repeated), the discoverer's own instance, PTR records owned by the service name, the peers' records under textually colliding foreign services (_srvx._tcp.local, x_srv._tcp.local, _srv._tcpx.local, _tcp.local) and under deeper names (a.<peer>.<service>), and peer announcements whose additional section also carries A/SRV/TXT records owned by names outside the service (a host name, another service's instance, the service name itself), goodbyes (TTL 0) after which the peer may advertise again, and combined packets (host record, other service, service PTR, two peers in one compressed message). One peer in thirteen has 18..39 addresses and 5..11 ports. Each announcement is assembled like ServiceDiscovery::announce (into_records, answers + address records as additionals) or, in a third of the cases, like a reply made by build_reply (address records in the additional section only), serialised with build_bytes_vec_compressed, parsed, ingested with the receive loop's add_response_to_resources — the sync one, or (35% of the cases) the async-tokio copy driven by a current-thread runtime — with and without an on_discovery channel, and read back exactly as get_known_services does. Oracle: every advertised peer is reported exactly once with exactly its name, address set, port set and attribute map; the number of reported instances equals the number of advertised strict-subdomain owners and each equals one owner's record set; nothing for the discoverer, the service name or foreign services; channel messages equal the instance just announced and none is delivered for records that must not be reported. Separately, unescape(escape(s)) == s for generated strings biased to '.' and '\\\\'. Non-trivial = >= 2 peers, a multi-member set, or noise present",
         assumptions: vec![
             "driven through simple_mdns::verif (hook): ResourceRecordManager, add_response_to_resources of the sync service discovery, InstanceInformation::from_records",
             "for deeper names only the record sets are compared (the statement does not define their instance name)",
